@@ -200,9 +200,14 @@ class _Sym:
         raise Unsupported('format on %r' % (self,))
 
     def __iter__(self):
+        if type(self) in _NUMERIC_PROXIES:
+            # what CPython does for the real value
+            raise TypeError("'%s' object is not iterable" % self.__class__.__name__)
         raise Unsupported('iter on %r' % (self,))
 
     def __len__(self):
+        if type(self) in _NUMERIC_PROXIES:
+            raise TypeError("object of type '%s' has no len()" % self.__class__.__name__)
         raise Unsupported('len on %r' % (self,))
 
 
@@ -393,6 +398,9 @@ class SymFloat(_Sym):
 
     def __repr__(self):
         return 'SymFloat(%s)' % (self.e if self.special is None else self.special,)
+
+
+_NUMERIC_PROXIES = (SymBool, SymInt, SymFloat)
 
 
 class SymStr(_Sym):
